@@ -156,4 +156,72 @@ loop = Unit(
 )
 loop.key_suffix = "conflict-loop"
 
-UNITS = [get_charnos_rw, step, loop]
+
+final_sort = Unit(
+    "processing", "_schedule_rewrites", slice=slice_final_sort,
+    params={"scheduled_rewrites": ("seq", SCHED_ENTRY)},
+    requires=[("schedule-pairwise-disjoint", "pairwise_ok(scheduled_rewrites)")],
+    ensures=[
+        ("same-length", "len(result) == len(old(scheduled_rewrites))"),
+        ("never-overlap", "pairwise_ok(result)"),
+        ("descending-by-range", "forall(lambda a, b: implies(0 <= a and a < b and b < len(result),"
+         " result[a][1][0].start > result[b][1][0].start or (result[a][1][0].start == result[b][1][0].start and result[a][1][0].end >= result[b][1][0].end)))"),
+        # reverse-position application: a later-applied non-empty rewrite lies entirely before every earlier-applied one
+        ("later-applied-lies-before", "forall(lambda a, b: implies(0 <= a and a < b and b < len(result)"
+         " and result[a][1][0].start < result[a][1][0].end and result[b][1][0].start < result[b][1][0].end,"
+         " result[b][1][0].end <= result[a][1][0].start))"),
+    ],
+    ghost={k: v for k, v in GHOST.items() if k in ("ov", "pairwise_ok")},
+    calls={"core.unparse": ("uf", "str")}, records=RECORDS, props=("C10", "C06"),
+)
+final_sort.key_suffix = "final-sort"
+
+VALID_CALLS = {"core.is_valid_python": ("uf", "bool"), "_do_rewrite": ("uf", "str"),
+               "_substitute_original_strings": ("uf", "str"), "_substitute_original_fstrings": ("uf", "str")}
+
+apply_rewrites = Unit(
+    "processing", "_apply_rewrites",
+    params={"source": "str", "rewrites": ("seq", SCHED_ENTRY)}, returns="str",
+    ensures=[("valid-or-unchanged", "result == source or core.is_valid_python(result)")],
+    loops={0: {"inv": ["True"]}},
+    calls=VALID_CALLS, records=RECORDS, props=("C10", "C03"),
+)
+
+apply_summary = Unit("processing", "_apply_rewrites", name="processing._apply_rewrites#summary",
+                     params={"source": "str", "rewrites": ("seq", SCHED_ENTRY)}, returns="str",
+                     ensures=[("valid-or-unchanged", "result == source or core.is_valid_python(result)")],
+                     calls=VALID_CALLS, records=RECORDS)
+
+
+def _lazy_schedule(eng, e, env, pc):
+    """_schedule_rewrites(...) at its call sites in fix/chain: arguments are not evaluated (rule generator objects);
+    the result is an arbitrary schedule -- the callers' contracts must hold for every schedule"""
+    from pyvc.values import fresh_val
+    eng.assumptions.add("havoc:_schedule_rewrites result (callers proved for every schedule)")
+    return fresh_val("schedule", ("seq", SCHED_ENTRY))
+
+
+_lazy_schedule.lazy_args = True
+
+PASS_CALLS = {"_schedule_rewrites": _lazy_schedule, "_apply_rewrites": ("contract", apply_summary),
+              "core.is_valid_python": ("uf", "bool"), "_build_chain": ("havoc", "obj")}
+
+fix_wrapper = Unit(
+    "processing", "fix.fix_decorator.wrapper",
+    params={"source": "str", "max_iter": "int"}, returns="str",
+    requires=[("valid-input", "core.is_valid_python(source)")],
+    ensures=[("valid-output", "core.is_valid_python(result)")],
+    loops={0: {"inv": ["core.is_valid_python(source)"]}},
+    calls=PASS_CALLS, records=RECORDS, props=("C03", "C10", "C09"),
+)
+
+chain_func = Unit(
+    "processing", "chain.func_chain",
+    params={"source": "str", "max_iter": "int", "preserve": ("set", "str"), "fix_funcs": "obj"}, returns="str",
+    requires=[("valid-input", "core.is_valid_python(source)")],
+    ensures=[("valid-output", "core.is_valid_python(result)")],
+    loops={0: {"inv": ["core.is_valid_python(source)"]}},
+    calls=PASS_CALLS, records=RECORDS, props=("C03", "C10", "C09"),
+)
+
+UNITS = [get_charnos_rw, step, loop, final_sort, apply_rewrites, fix_wrapper, chain_func]
